@@ -105,7 +105,7 @@ def run(tier):
         for i, it in enumerate(items):
             r = core.rng(ck.seed, PID, 'cfg', rd, i)
             api = r.choice(['sax2', 'sax2', 'dom', 'sax1', 'domls'])
-            base = dict(api=api, ns=1 if it['ns'] else 0, cont=r.choice([0, 0, 1]))
+            base = dict(api=api, ns=1 if it['ns'] else 0, cont=0)   # continue-after-fatal is documented as undetermined: not compared
             cid = 'r%da%d' % (rd, i)
             cases.append(core.Case(cid + '.mem', 'parse', base).doc(it['bytes']))
             meta[cid + '.mem'] = (i, 'mem')
